@@ -22,7 +22,7 @@ DEVIATIONS = ["EmptyBraceNoFocus", "BraceNoReset", "UnionCover", "StrPatchOOB", 
 ACTIONS = ["Read", "Designate", "Advance", "Focus", "OpenBrace", "EmptyBrace", "StartExpr", "ExprFocus", "AddString",
            "AddScalar", "CloseBrace", "initadd:skip", "initadd:insert-before", "initadd:append", "initadd:replace",
            "initadd:inside-earlier"]
-SCALARS = {"char": "char", "short": "short", "int": "int", "uint": "unsigned", "ptr": "char *"}
+SCALARS = {"char": "char", "short": "short", "ushort": "unsigned short", "int": "int", "uint": "unsigned", "ptr": "char *"}
 
 
 # ------------------------------------------------------------------------------------------------
@@ -362,7 +362,7 @@ def audit_types(ctx, tab):
             lines.append('  { typedef %s; if (sizeof(T_) != %d || _Alignof(T_) != %d) { puts("array %s"); return 1; } }\n'
                          % (decl(tab, t, "T_"), ty["size"], ty["align"], t))
             checks += 2
-    lines.append('  if (sizeof(char *) != %d || sizeof(L\'a\') != %d) { puts("scalars"); return 1; }\n' % (tab["ty"]["ptr"]["size"], tab["ty"]["int"]["size"]))
+    lines.append('  if (sizeof(char *) != %d || sizeof(L\'a\') != %d || sizeof(u\'a\') != %d) { puts("scalars"); return 1; }\n' % (tab["ty"]["ptr"]["size"], tab["ty"]["int"]["size"], tab["ty"]["ushort"]["size"]))
     lines.append("  return 0;\n}\n")
     src, exe = ctx.path("types.c"), ctx.path("types")
     open(src, "w").write("".join(lines))
